@@ -20,6 +20,8 @@ type Stats struct {
 	Capped       bool
 	RacySelects  int64 // executions that passed a select with more than one ready case
 	Picks        int64 // selects with several ready cases resolved as explicit choice points
+	Retries      int64 // executions repeated because the runtime took another ready select case than scheduled
+	Unreachable  int64 // schedules given up because the scheduled select case was never taken in 400 attempts
 	RacyDiverged int64 // replays that took another branch at such a select (explored as executions of their own)
 }
 
@@ -40,6 +42,14 @@ func (e *Explorer) Explore() *Stats {
 		f := stack[len(stack)-1]
 		stack = stack[:len(stack)-1]
 		r := e.Exec(f.prefix, f.expectN)
+		for tries := 0; r.WrongBranch && tries < 400; tries++ {
+			st.Retries++
+			r = e.Exec(f.prefix, f.expectN)
+		}
+		if r.WrongBranch {
+			st.Unreachable++
+			continue
+		}
 		st.Executions++
 		st.Transitions += int64(len(r.Points))
 		st.PerBound[r.Preemptions()]++
